@@ -50,12 +50,12 @@ FLOORS = {
                            "runs_real_loop": 580, "gens_template_registered": 80000,
                            "gens_loop_filter_registered": 30000, "gens_block_registered": 19000,
                            "census_checks": 6000}},
-    "thorough": {"evaluations": 60000, "distinct": 55000,
-                 "counters": {"runs_cancel_manual": 26000, "runs_aclose": 11000,
-                              "runs_raise": 18000, "runs_real_loop": 5800,
-                              "gens_template_registered": 800000,
-                              "gens_loop_filter_registered": 300000,
-                              "gens_block_registered": 190000, "census_checks": 60000}},
+    "thorough": {"evaluations": 140000, "distinct": 140000,
+                 "counters": {"runs_cancel_manual": 50000, "runs_aclose": 20000,
+                              "runs_raise": 40000, "runs_real_loop": 30000,
+                              "gens_template_registered": 1800000,
+                              "gens_loop_filter_registered": 700000,
+                              "gens_block_registered": 400000, "census_checks": 140000}},
 }
 
 CAUSE = {"complete": "completes", "raise": "body-raises", "aclose": "consumer-aclose",
